@@ -282,6 +282,14 @@ Definition set_station_alias p (alias : N) : res serr prov :=
   let? '(p2, _) := range_write_all p1 (start_at 7 2) (le_bytes 2 cs) in
   Ok p2.
 
+(* SubDevice::set_alias_address: the EEPROM first, and only when that succeeded the alias the
+   SubDevice reports (SubDevice::alias_address) *)
+Definition set_alias_address p (reported alias : N) : res serr prov * N :=
+  match set_station_alias p alias with
+  | Ok p' => (Ok p', alias)
+  | other => (other, reported)
+  end.
+
 (* ---------- the hook's query numbers ---------- *)
 Definition query (md : mode) (p : prov) (q arg : N) : res serr (list Z) * prov :=
   match q with
